@@ -277,6 +277,7 @@ type lineParser struct {
 	i            int  // byte position within line
 	col          int  // 0-based column position within line
 	tabRemaining int8 // number of columns left within current tab character
+	tabPartial   bool // whether some columns of the current tab character have been consumed
 
 	state int8
 }
@@ -362,6 +363,7 @@ func (p *lineParser) Advance(n int) {
 }
 
 func (p *lineParser) updateTabRemaining() {
+	p.tabPartial = false
 	if p.i < len(p.line) && p.line[p.i] == '\t' {
 		p.tabRemaining = int8(columnWidth(p.col, p.line[p.i:p.i+1]))
 	} else {
@@ -416,6 +418,7 @@ func (p *lineParser) ConsumeIndent(n int) {
 			if n < int(p.tabRemaining) {
 				p.col += n
 				p.tabRemaining -= int8(n)
+				p.tabPartial = true
 				return
 			}
 			p.col += int(p.tabRemaining)
